@@ -160,4 +160,38 @@ theorem toSnakeCase_is_translated (s : List Char) : toSnakeCase s = Pinned.Funcs
 
 end Translated
 
+/-! ## `clientMethodName` IS the code's current `Method.client_method_name` (non-internal methods; translated by
+harness/pyfun2lean.py from gapic/schema/wrappers.py and re-bridged on every run) -/
+
+section TranslatedMethodName
+open GapicModel.PyRt
+
+theorem contains_map_toList (tbl : List String) (w : String) : strIn w.toList (tbl.map String.toList) = tbl.contains w := by
+  induction tbl with
+  | nil => simp [strIn]
+  | cons a t ih =>
+    simp only [strIn, List.map_cons, List.contains_cons] at ih ⊢
+    rw [ih]
+    congr 1
+    rw [Bool.eq_iff_iff]
+    simp only [beq_iff_eq]
+    constructor
+    · intro h; exact String.ext (by simpa using h)
+    · intro h; rw [h]
+
+theorem clientMethodName_is_translated (w : String) :
+    (clientMethodName w).toList = Pinned.Funcs.client_method_name w.toList false := by
+  simp only [clientMethodName, Pinned.Funcs.client_method_name, isKeyword]
+  have hl : PyRt.lower w.toList = (GapicModel.Model.Names.lower w).toList := by
+    simp only [PyRt.lower, GapicModel.Model.Names.lower, String.toList_ofList]
+    rfl
+  rw [hl, contains_map_toList]
+  by_cases h : Pinned.pyKeywords.contains (GapicModel.Model.Names.lower w) = true
+  · have h' := List.contains_iff_mem.mp h
+    simp [h', String.toList_append]
+  · have h' : GapicModel.Model.Names.lower w ∉ Pinned.pyKeywords := fun hm => h (List.contains_iff_mem.mpr hm)
+    simp [h']
+
+end TranslatedMethodName
+
 end GapicModel.Props.C12
